@@ -20,6 +20,7 @@ def run(prog, run):
     r3(prog, run)
     r4(prog, run)
     r5(prog, run)
+    r6(prog, run)
 
 
 def r1(prog, run):
@@ -270,3 +271,45 @@ def r5(prog, run):
             run.violation(rid, '_q_receiveData#bounded-read-once', rd.loc(i),
                           '%s reads a bounded amount once per readyRead: data that is already buffered is never signalled again, so a transfer larger than one '
                           'block stalls and is reported corrupt while the sender reports success' % rd.fmt(i, inline=False)[:60])
+
+
+def r6(prog, run):
+    rid = run.rule('C19.R6', 'an announced size of 0 means "unknown": the size only enters comparisons or arithmetic behind a test that it is non-zero (otherwise a transfer of '
+                             'unknown length is cut short or judged against 0)', floor=2)
+    SIZE = ('QXmppTransferJob::fileSize', 'QXmppTransferFileInfo::size')
+    n_uses = 0
+    for f in prog.fns.values():
+        if 'QXmppTransferManager.cpp' not in f.file or f.entry is None:
+            continue
+        par = f.parents()
+        for i, n in f.calls():
+            if f.cname(n) not in SIZE:
+                continue
+            # climb through casts to the consuming operation
+            j = i
+            p = par.get(j)
+            while p is not None and f.nodes[p]['k'] in ('icast', 'cast'):
+                j, p = p, par.get(p)
+            pn = f.nodes[p] if p is not None else None
+            bo = f.binop(p) if p is not None else None
+            arith = bo is not None and bo[0] in ('-', '+', '<', '<=', '>', '>=', '==', '!=', '/', '%')
+            minmax = pn is not None and pn['k'] == 'call' and (f.sym(pn) or {}).get('name') in ('qMin', 'qMax', 'min', 'max', 'qBound')
+            # a local initialised from the size and then used in arithmetic counts as well
+            if pn is not None and pn['k'] == 'decl':
+                arith = True
+            if not (arith or minmax):
+                continue
+            n_uses += 1
+            run.instance(rid)
+            me = f.fmt(i)
+            guarded = any(p2 is True and f.fmt(c) == me for c, p2 in f.atomic_assertions_at(i)) or \
+                any(p2 is False and f.binop(f.skip(c)) and f.binop(f.skip(c))[0] == '==' and me in f.fmt(c) and f.const_value(f.binop(f.skip(c))[2]) == ('int', 0)
+                    for c, p2 in f.atomic_assertions_at(i))
+            if guarded:
+                run.ok(rid, f.loc(i), '%s used behind a non-zero test in %s' % (me[-40:], f.display()[:40]))
+            else:
+                run.violation(rid, '%s#size-used-unguarded' % top_function(prog, f).qname, f.loc(i),
+                              '%s enters %s without a test that a size was announced at all: with an unknown size (0) the computation uses 0 as if it were the real length'
+                              % (me[-40:], f.fmt(p, inline=False)[:60]))
+    if n_uses < 2:
+        raise AnalysisBroken('C19.R6: uses of the announced size not found')
